@@ -245,6 +245,46 @@ def regroup (vals : List α) (w : Nat) (order : List Nat) : Outcome (List (List 
     let s := (vals.drop (j * w)).take w
     order.filterMap fun k => s[k]?)
 
+/-- consecutive windows of `w` values, in one pass -/
+def windowsFast {β : Type} (w : Nat) : Nat → List β → List (List β)
+  | 0, _ => []
+  | n + 1, l => l.take w :: windowsFast w n (l.drop w)
+
+theorem windows_eq_fast {β : Type} (w count : Nat) (l : List β) :
+    ((List.range count).map fun j => (l.drop (j * w)).take w) = windowsFast w count l := by
+  induction count generalizing l with
+  | zero => simp [windowsFast]
+  | succ n ih =>
+    have := ih (l.drop w)
+    rw [List.range_succ_eq_map, List.map_cons, List.map_map, windowsFast, ← this]
+    simp only [Nat.zero_mul, List.drop_zero, List.cons.injEq, true_and]
+    apply List.map_congr_left
+    intro i _
+    simp only [Function.comp, List.drop_drop]
+    congr 2
+    rw [Nat.succ_mul]; omega
+
+/-- `regroup` computed in one pass (what the compiled driver runs; `regroup` itself re-walks the
+    values for every sample, which is quadratic on sensor payloads beyond 64 KiB) -/
+def regroupFast (vals : List α) (w : Nat) (order : List Nat) : Outcome (List (List α)) :=
+  if w = 0 then .panic .divZero
+  else if vals.length % w ≠ 0 then .err .format
+  else .ok ((windowsFast w (vals.length / w) vals).map fun s => order.filterMap fun k => s[k]?)
+
+omit [FNum α] in
+theorem regroup_eq_fast (vals : List α) (w : Nat) (order : List Nat) :
+    regroup vals w order = regroupFast vals w order := by
+  unfold regroup regroupFast
+  split
+  · rfl
+  · split
+    · rfl
+    · rw [← windows_eq_fast, List.map_map]
+      rfl
+
+@[csimp] theorem regroup_csimp : @regroup = @regroupFast := by
+  funext α vals w order; exact regroup_eq_fast vals w order
+
 /-! ### Key parsers -/
 
 def keyString (k : Bytes) : String := strOfBytes k
